@@ -1122,14 +1122,37 @@ where
             };
             let level = node.level();
 
-            let literal_set = crate::set_pop(manager, literal_set, level);
+            /// Remove all literals above `until` from the literal set. In
+            /// contrast to `set_pop()`, this also works for negative literals.
+            fn pop<'a, M: Manager<Terminal = BDDTerminal>>(
+                manager: &'a M,
+                set: Borrowed<'a, M::Edge>,
+                until: LevelNo,
+            ) -> Borrowed<'a, M::Edge>
+            where
+                M::InnerNode: HasLevel,
+            {
+                match manager.get_node(&set) {
+                    Node::Inner(n) if n.level() < until => {
+                        let (t, e) = collect_children(n);
+                        if manager.get_node(&t).is_terminal(&BDDTerminal::False) {
+                            pop(manager, e, until)
+                        } else {
+                            pop(manager, t, until)
+                        }
+                    }
+                    _ => set,
+                }
+            }
+
+            let literal_set = pop(manager, literal_set, level);
             let (literal_set, c) = match manager.get_node(&literal_set) {
                 Node::Inner(node) if node.level() == level => {
                     let (t, e) = collect_children(node);
                     if manager.get_node(&e).is_terminal(&BDDTerminal::False) {
-                        (e, true)
+                        (t, true)
                     } else {
-                        (t, false)
+                        (e, false)
                     }
                 }
                 _ => (literal_set, false),
